@@ -157,7 +157,7 @@ func loadCase(id int, seed int64, out *json.Encoder) {
 
 	perts := []string{"none", "format-bogus", "format-swap", "format-empty", "height+1", "height+2", "height-1", "bf", "order-reversed",
 		"link-missing", "node-garbage", "node-more-values", "node-fewer-values", "node-more-links", "node-fewer-links", "node-unordered", "node-duplicate", "node-unordered-first",
-		"order-reversed-cached", "height+1-cached", "bf-cached"}
+		"order-reversed-cached", "height+1-cached", "bf-cached", "node-empty-bytes", "node-truncated-links", "node-truncated-mid"}
 	for _, pert := range perts {
 		r2 := *root
 		cfg := *base
@@ -226,6 +226,26 @@ func loadCase(id int, seed int64, out *json.Encoder) {
 			r2.Link = &name
 		case "node-garbage":
 			b := []byte{0xff, 0xff, 0xff, 0xff, 0xff, 0xff, 0xff, 0xff, 0xff, 0xff, 0xff, 0x7b}
+			name := nodeName(b)
+			st.m[name] = b
+			r2.Link = &name
+		case "node-empty-bytes", "node-truncated-links", "node-truncated-mid":
+			// the real top node cut short: to nothing, right before its link table, or in the middle
+			b := append([]byte{}, top...)
+			switch pert {
+			case "node-empty-bytes":
+				b = []byte{}
+			case "node-truncated-mid":
+				b = b[:len(b)/2]
+			default:
+				if nf == "bin" {
+					_, rest, _ := decodeUvarintSeq(b)
+					_, rest, _ = decodeUvarintSeq(rest)
+					b = b[:len(b)-len(rest)]
+				} else {
+					b = b[:len(b)-3]
+				}
+			}
 			name := nodeName(b)
 			st.m[name] = b
 			r2.Link = &name
